@@ -43,7 +43,7 @@ func runC15(c *Ctx) bool {
 		r := gen.New(c.Seed, 1501, uint64(j))
 		classes := []int{gen.ClassPlain, gen.ClassBullet, gen.ClassBlankEdge}
 		if r.Chance(1, 3) {
-			classes = []int{gen.ClassPlain, gen.ClassBullet, gen.ClassBlankEdge, gen.ClassUnicode, gen.ClassQuoting, gen.ClassExt}
+			classes = []int{gen.ClassPlain, gen.ClassBullet, gen.ClassBlankEdge, gen.ClassUnicode, gen.ClassQuoting, gen.ClassExt, gen.ClassCase}
 		}
 		f := gen.RandForest(r, []int{6, 14, 40}[r.Intn(3)], r.Range(2, 8), classes, []int{0, 20}[r.Intn(2)])
 		cs := &Case{Idx: idx, Kind: "random", Seed: r.Uint64()}
